@@ -187,6 +187,13 @@ def _small_c01(tier, seed, shard=(0, 1)):
             yield {"model": m, "other_first": cases[(k * 7) % len(cases)]}
     # left/right pairs: one stereo file per pair, L in channel 0 whatever the directory order
     if shard[0] == 0:
+        # ... also when the two headers carry different rates, and when one half is much longer than the other
+        files = [_sample("DIF -L", 300, 31, rate=44100), _sample("DIF -R", 300, 32, rate=22050)]
+        yield {"model": {"partitions": [{"volumes": [_vol("V", files)]}]},
+               "expect_stereo": {"A/V/DIF.wav": {"L": {"seed": 31, "words": 300}, "R": {"seed": 32, "words": 300}}}}
+        files = [_sample("LNG -R", 100, 34), _sample("LNG -L", 10000, 33)]
+        yield {"model": {"partitions": [{"volumes": [_vol("V", files)]}]},
+               "expect_stereo": {"A/V/LNG.wav": {"L": {"seed": 33, "words": 10000}, "R": {"seed": 34, "words": 100}}}}
         for order in (("PAD -L", "PAD -R"), ("PAD -R", "PAD -L"), ("STR L", "STR R")):
             files = [_sample(order[0], 300, 11), _sample(order[1], 300, 12), _sample("SOLO", 7, 13)]
             stem = order[0][:3]
@@ -343,6 +350,14 @@ def _small_c02(tier, seed, shard=(0, 1)):
                           "patches": [{"name": "PA", "partials": [0]}],
                           "partials": [{"name": "PT", "samples": [0]}],
                           "samples": [_rsample("S", words, sum(perm) + top, clusters=list(perm), top=top)]})
+    # partial slots that are not filled front to back
+    for slots in ([0, -1, 1, -1], [-1, -1, -1, 2], [-1, 0, -1, 2]):
+        cases.append({"fat_version": 1, "disk_name": "D",
+                      "volumes": [{"name": "V", "performances": [0]}],
+                      "performances": [{"name": "P", "patches": [0]}],
+                      "patches": [{"name": "PA", "partials": [0]}],
+                      "partials": [{"name": "PT", "samples": slots}],
+                      "samples": [_rsample(f"G{i}", 50 + i, 70 + i) for i in range(3)]})
     # shared and orphaned entries
     cases.append({"fat_version": 2, "disk_name": "D",
                   "volumes": [{"name": "V1", "performances": [0, 1]}, {"name": "V2", "performances": [1]}],
